@@ -48,11 +48,12 @@ def rect2polar(x, y):
     :rtype theta: float (decimal degrees)
     """
     r = sqrt(x ** 2 + y ** 2)
-    theta = atan2(x, y)
+    theta = degrees(atan2(x, y))
     if theta < 0:
-        theta = degrees(theta) + 360
-    else:
-        theta = degrees(theta)
+        theta += 360
+        # a negative angle smaller than the spacing of floats at 360 rounds up to 360.0
+        if theta >= 360:
+            theta -= 360
     return r, theta
 
 
